@@ -138,7 +138,7 @@ class Unit:
         if old is None or (size, json.dumps(case, sort_keys=True, default=str)) < (old["size"], json.dumps(old["case"], sort_keys=True, default=str)):
             if old is None and len(self.violations) >= self.MAXV:
                 return
-            self.violations[key] = {"key": key, "what": what, "case": case, "size": size, "count": (old["count"] if old else 0) + 1}
+            self.violations[key] = {"key": key, "what": what[:700], "case": case, "size": size, "count": (old["count"] if old else 0) + 1}
         else:
             old["count"] += 1
 
